@@ -56,7 +56,7 @@ pub fn run_c13(ctx: &mut Ctx) {
                 ex(&mut log, &mut im, &format!("k.drop_pending {a}"))
             } else if !tokens.is_empty() {
                 let t = *rng.pick(&tokens); tokens.retain(|&x| x != t);
-                ex(&mut log, &mut im, &format!("k.drop_token {t}"))
+                ex(&mut log, &mut im, &format!("{} {t}", if rng.chance(1, 4) { "k.drop_token_u" } else { "k.drop_token" }))
             } else { continue };
             let live: usize = field(&o, "live").and_then(|x| x.parse().ok()).unwrap_or(usize::MAX);
             if live > max { or.fail(format!("{live} live tokens with a limit of {max}"), log.replay_block(), "C13:over-limit".into()); }
@@ -144,7 +144,7 @@ pub fn c14_wg(ctx: &mut Ctx, log: &mut Log, im: &mut Impl, or: &mut Oracle) {
                 else { if alive.is_empty() { or.fail("shutdown future still pending after the last token was dropped".into(), log.replay_block(), "C14:not-completing".into()); } last_pending_wakes = Some(w); last_poller = Some((second, if second { wb } else { w - wb })); if second { or.count("polls_with_second_waker"); } }
             } else if !alive.is_empty() {
                 let t = *rng.pick(&alive); alive.retain(|&x| x != t);
-                let o = ex(log, im, &format!("g.drop {t}"));
+                let o = ex(log, im, &format!("{} {t}", if rng.chance(1, 3) { "g.dropu" } else { "g.drop" }));
                 let w: usize = field(&o, "wakes").and_then(|x| x.parse().ok()).unwrap_or(0);
                 if alive.is_empty() { if let Some(at) = last_pending_wakes { if w <= at { or.fail("the last token was dropped after a pending poll, but the shutdown task was not woken".into(), log.replay_block(), "C14:lost-wake".into()); } } }
                 if alive.is_empty() { if let Some((second, at)) = last_poller { let wb: usize = field(&o, "wb").and_then(|x| x.parse().ok()).unwrap_or(0); let mine = if second { wb } else { w - wb };
